@@ -167,8 +167,9 @@ func main() {
 		fs := flag.NewFlagSet("replay", flag.ExitOnError)
 		streamPath := fs.String("stream", "", "stream file recorded by gen --stream")
 		seed := fs.Int64("seed", 1, "schedule seed")
+		restartEvery := fs.Int("restart-every", 6, "restart with probability 1/N at each block boundary (1 = always)")
 		fs.Parse(os.Args[2:])
-		sum := replayStream(*streamPath, *seed)
+		sum := replayStream(*streamPath, *seed, *restartEvery)
 		js, _ := json.Marshal(sum)
 		fmt.Println(string(js))
 	default:
